@@ -165,10 +165,16 @@ class Case:
         for name, data in self.extra_files.items():
             p = os.path.join(path, name); os.makedirs(os.path.dirname(p), exist_ok=True)
             with open(p, 'wb') as f: f.write(data)
+        for name, target in getattr(self, 'symlinks', {}).items():
+            # directory entries that are symbolic links: dangling ones (named by no record) must be ignored; a blk file reached through a link must be read through it
+            os.symlink(target, os.path.join(path, name))
+        for n in getattr(self, 'linked_files', ()):       # the blk file itself lives in a sub-directory, the data directory holds a symlink to it
+            name = self.name_of.get(n, 'blk%05d.dat' % n); os.makedirs(os.path.join(path, 'elsewhere'), exist_ok=True)
+            os.rename(os.path.join(path, name), os.path.join(path, 'elsewhere', name)); os.symlink(os.path.join(path, 'elsewhere', name), os.path.join(path, name))
         p = subprocess.run([ldbw_bin, os.path.join(path, 'index')], input='\n'.join(k.hex() + ' ' + v.hex() for k, v in self.records).encode(), capture_output=True)
         if p.returncode != 0: raise RuntimeError('ldbw failed: ' + p.stderr.decode()[:500])
     def args(self):
-        a = ['-c', self.coin]
+        a = ['-c', getattr(self, 'coin_spelling', None) or self.coin]
         if self.verify: a.append('--verify')
         if self.start: a += ['-s', str(self.start)]
         if self.end is not None: a += ['-e', str(self.end)]
